@@ -428,6 +428,12 @@ func (p *Prog) ModuleCallees(c ssa.CallInstruction) []*ssa.Function {
 
 var implCache = map[*types.Func][]*ssa.Function{}
 
+func implCacheReset() {
+	for k := range implCache {
+		delete(implCache, k)
+	}
+}
+
 // Implementers returns the module's concrete methods that implement the interface method m.
 func (p *Prog) Implementers(m *types.Func) []*ssa.Function {
 	if r, ok := implCache[m]; ok {
